@@ -652,3 +652,16 @@ def m_vec_extend(ex, f, a):
     return UNIT
 @pattern(r'^<\[.*\] as ToOwned>::to_owned$|^<\[.*\]>::to_vec')
 def m_slice_to_owned(ex, f, a): return PyVec([deep_clone(ex, x) for x in _items(ex, a[0])])
+
+@pattern(r'^core::slice::<impl \[.*\]>::(chunks|chunks_exact)$')
+def m_slice_chunks(ex, f, a):
+    """<[T]>::chunks(n) / chunks_exact(n): consecutive sub-slices of n elements; chunks keeps the shorter remainder, chunks_exact drops it; n == 0 panics"""
+    it = _items(ex, a[0]); n = a[1]
+    if is_sym(n): n = ex.concretize(n, 'chunk size')
+    if n == 0: raise Panic('chunk size must be non-zero')
+    exact_ = f.rsplit('::', 1)[1].startswith('chunks_exact'); out = []
+    for i in range(0, len(it), n):
+        part = list(it[i:i + n])
+        if len(part) < n and exact_: break
+        out.append(PyVec(part))
+    return Iter(out)
